@@ -112,6 +112,7 @@ type Frame struct {
 	noFrame    bool
 	splitWhere []string
 	inDup      bool
+	callOrd    map[string]int             // call sites seen so far, per callee name (atcall callee#k)
 	ghostHdr   map[string]*ssa.BasicBlock // loop ghost variable -> header of its loop
 	dbg        map[string][]ssa.Value     // source names of plain SSA values (from DebugRef), in execution order
 }
